@@ -654,7 +654,7 @@ func (sm *Sim) DumpTables() string {
 		if h.MACEntry != nil {
 			mac = MacTok(h.MACEntry.MAC)
 		}
-		hs = append(hs, IPTok(k)+"/"+IPTok(h.Addr.IP)+"/"+mac+"/"+MacTok(h.Addr.MAC)+"/"+b01(h.Online)+b01(h.Dirty())+"/"+vsec(h.LastSeen)+"/"+hostNames(h)+"/"+h.HuntStage.String()+"/"+h.Manufacturer)
+		hs = append(hs, IPTok(k)+"/"+IPTok(h.Addr.IP)+"/"+mac+"/"+MacTok(h.Addr.MAC)+"/"+b01(h.Online)+b01(h.Dirty())+"/"+vsec(h.LastSeen)+"/"+hostNames(h)+"/"+h.HuntStage.String()+"/"+notOUI(h.Manufacturer, h.Addr.MAC))
 	}
 	var ms []string
 	for _, e := range sm.S.MACTable.Table {
@@ -663,7 +663,7 @@ func (sm *Sim) DumpTables() string {
 			l = append(l, IPTok(h.Addr.IP))
 		}
 		ms = append(ms, MacTok(e.MAC)+"/"+b01(e.Online)+b01(e.Captured)+b01(e.IsRouter)+"/"+IPTok(e.IP4)+"/"+IPTok(e.IP4Offer)+"/"+
-			IPTok(e.IP6GUA)+"/"+IPTok(e.IP6LLA)+"/["+strings.Join(l, "+")+"]/"+macNames(e)+"/"+e.Manufacturer)
+			IPTok(e.IP6GUA)+"/"+IPTok(e.IP6LLA)+"/["+strings.Join(l, "+")+"]/"+macNames(e)+"/"+notOUI(e.Manufacturer, e.MAC))
 	}
 	return "H:" + strings.Join(hs, ",") + "|M:" + strings.Join(ms, ",")
 }
@@ -2179,4 +2179,14 @@ func EnvCfgs() []Cfg {
 		l = append(l, c)
 	}
 	return l
+}
+
+// notOUI prints a Manufacturer field unless it is what the library's static OUI database gives for that MAC: the
+// database lookup is a function of the MAC alone and not part of the tables' model (a generated MAC such as
+// 00:0a:55:.. happens to have a registered OUI); a value learned from a name source is printed.
+func notOUI(m string, mac net.HardwareAddr) string {
+	if m != "" && m == packet.FindManufacturer(mac) {
+		return ""
+	}
+	return m
 }
